@@ -9,7 +9,7 @@ from ..common import Result
 
 PID = 'C13'
 LEVEL = 'exploration'
-RULE = ('bounded-exhaustive op sequences (length <= 3 quick / <= 4 thorough) over 15 symbols {setitem, update(dict), '
+RULE = ('bounded-exhaustive op sequences (length <= 3 quick / <= 4 thorough) over 17 symbols {setitem, update(dict), '
         'update(**kw), update({}), update(non-serialisable), pop, pop-with-default, popitem, del} x keys {a,b} from 6 '
         'start states {no metadata, metadata at creation, metadata={} at creation} x {Array, RaggedArray}, values rotating through a pool of 24 '
         'kinds; plus random longer sequences. After every step all read accessors of the live and of a fresh handle '
@@ -27,7 +27,7 @@ MIN_NONTRIVIAL = {'quick': 5000, 'thorough': 50000}
 
 SYMS = [('set', 'a'), ('set', 'b'), ('upd', 'a'), ('upd', 'b'), ('updkw', 'a'), ('updempty', None),
         ('updbad', 'a'), ('pop', 'a'), ('pop', 'b'), ('popd', 'a'), ('popd', 'b'), ('popitem', None),
-        ('del', 'a'), ('del', 'b'), ('upd2', None)]
+        ('del', 'a'), ('del', 'b'), ('upd2', None), ('popsame', 'a'), ('setsingleton', 'a')]
 STARTS = [('Array', False), ('Array', True), ('RaggedArray', False), ('RaggedArray', True),
           ('Array', 'empty'), ('RaggedArray', 'empty')]
 
@@ -178,6 +178,21 @@ def run_case(case, env):
                         ret_expected = ('v', canon('dflt'))
                         res.count('mon.missing_key')
                     call = lambda: md.pop(k, 'dflt')
+                elif op == 'setsingleton':
+                    v = [None, True, False, 0, 1, '', 255][(rot + i) % 7]
+                    newmodel[k] = v
+                    call = lambda: md.__setitem__(k, v)
+                elif op == 'popsame':
+                    # default equal (for JSON singletons: identical) to the stored value
+                    if k in newmodel:
+                        dflt = roundtrip(newmodel)[k]
+                        ret_expected = ('v', canon(dflt))
+                        del newmodel[k]
+                    else:
+                        dflt = None
+                        ret_expected = ('v', canon(None))
+                        res.count('mon.missing_key')
+                    call = lambda: md.pop(k, dflt)
                 elif op == 'popitem':
                     if not newmodel:
                         exp_exc = KeyError
